@@ -49,6 +49,8 @@ inductive P where
   | X (v g a : Nat)
   | Y (v g a : Nat)
   | K (v g a b : Nat)
+  | M (g a : Nat)
+  | N (v g a : Nat)
   | Z (kv g1 t g2 ls la lb lr : Nat)
   | F (n id : Nat)
   | Q (cs : List P)
@@ -132,6 +134,17 @@ partial def parseP (depth : Nat) (cs : List Char) : Option (P × List Char) :=
     let (g, r) ← takeNum r; let r ← eat '.' r
     let (a, r) ← takeNum r
     pure (.Y v g a, r)
+  | 'M' :: r => do
+    let (g, r) ← takeNum r; let r ← eat '.' r
+    let (a, r) ← takeNum r
+    pure (.M g a, r)
+  | 'N' :: r => do
+    let (v, r) ← takeNum r
+    if v > 1 then none else
+    let r ← eat '.' r
+    let (g, r) ← takeNum r; let r ← eat '.' r
+    let (a, r) ← takeNum r
+    pure (.N v g a, r)
   | 'K' :: r => do
     let (v, r) ← takeNum r
     if v > 1 then none else
@@ -187,6 +200,8 @@ partial def gatesOf : P → List Nat
   | .X _ g _ => [g]
   | .Y _ g _ => [g]
   | .K _ g _ _ => [g]
+  | .M g _ => [g]
+  | .N _ g _ => [g]
   | .Z _ g1 t g2 .. => [g1, t, g2]
   | .V _ c => gatesOf c
   | .U c => gatesOf c
@@ -233,7 +248,7 @@ partial def hasU : P → Bool
 /-! ### program → leaf records -/
 
 inductive Kind where
-  | tag | exposed | cleanup | site | action | aread
+  | tag | exposed | cleanup | site | action | aread | ncleanup
 deriving BEq, Repr
 
 structure Rec where
@@ -369,6 +384,20 @@ partial def compile (base r : Nat) (io : Bool) (ctx : Ctx) (acc : CAcc) : P → 
     -- `reactive_graph::spawn` = `Sandboxed` future (`poll` sets the arena)
     let ctx := { ctx with need := ctx.need ++ [g] }
     { acc with seen := acc.seen ++ [g], recs := acc.recs ++ [{ mkRec a .aread ctx with wrapped := v == 1 }] }
+  | .M g a =>
+    -- a memo created under its own child scope (which provides Tag scope 50); every evaluation, the first one and the
+    -- re-evaluations from wherever it is read, runs inside `owner.with_cleanup(..)` of the memo's owner: `Step.enter`
+    let o := base + acc.owners.length
+    let acc := { acc with
+      owners := acc.owners ++ [({ req := r, parent := some ctx.scope, arena := r } : OwnerInfo)]
+      provides := acc.provides ++ [(o, r * 1000 + 50)]
+      seen := acc.seen ++ [g] }
+    { acc with recs := acc.recs ++ [{ mkRec a .tag { ctx with scope := o } with guarded := true, sandboxed := false }] }
+  | .N _ g a =>
+    -- cleanup functions run by `Owner::cleanup()` / a memo re-run from the handler's top level (no wrapper):
+    -- `Cleanup::cleanup` enters the owner's own arena for them (`Step.cleanupFns`)
+    let ctx := { ctx with need := ctx.need ++ [g] }
+    { acc with seen := acc.seen ++ [g], recs := acc.recs ++ [mkRec a .ncleanup ctx] }
   | .K v g a b =>
     -- polled by the handler side itself, OUTSIDE `Sandboxed`: v=0 a `ScopedFuture` (wrapped, not sandboxed), v=1 a bare
     -- future whose body re-enters its owner (`Owner::with`: guarded); either way `Owner::with` selects owner AND arena,
@@ -493,6 +522,10 @@ def runEnabled (d : DS) (r : Nat) (q : RQ) (atStart : Bool := false) : DS × RQ 
           | some ob => ob.owner != some q.root
           | none => false
         ({ d with actionBad := d.actionBad || bad }, out ++ [{ rec with done := true }])
+      | .ncleanup =>
+        (d.exec { req := r, captured := {}, wrapped := false, sandboxed := false,
+                  steps := [.cleanupFns rec.scope [.readAmb rec.id]] },
+          out ++ [{ rec with done := true }])
       | .cleanup => (d, out ++ [rec])
   (d, { q with recs := recs })
 
@@ -578,7 +611,7 @@ def insertLeaf (leaf : Nat) (seen : String) : List (Nat × List String) → List
 def showObs (d : DS) (r : Nat) (q : RQ) : String :=
   if q.aborted then s!"r{r}:aborted" else
   let isARead (leaf : Nat) := q.recs.any fun rec => rec.kind == .aread && rec.id == leaf
-  let isCleanup (leaf : Nat) := q.recs.any fun rec => rec.kind == .cleanup && rec.id == leaf
+  let isCleanup (leaf : Nat) := q.recs.any fun rec => (rec.kind == .cleanup || rec.kind == .ncleanup) && rec.id == leaf
   let m := d.st.mem.log.foldl (init := ([] : List (Nat × List String))) fun m ob =>
     if ob.req != r || ob.leaf == 1000000 then m else
     let seen :=
